@@ -96,6 +96,8 @@ class Verifier:
                         if isinstance(m, ast.Attribute) and isinstance(m.ctx, ast.Store):
                             for cls, fields in self.w.classes.items():
                                 if m.attr in fields: out.add('%s.%s' % (cls, m.attr))
+                        if isinstance(m, ast.Subscript) and isinstance(m.ctx, ast.Store):
+                            for cls in getattr(self.w, 'dict_classes', {}): out.add('%s.m' % cls)      # d[k] = v on a dict held by reference
             elif isinstance(n, ast.Call):
                 fname = n.func.id if isinstance(n.func, ast.Name) else (n.func.attr if isinstance(n.func, ast.Attribute) else None)
                 if isinstance(n.func, ast.Attribute) and n.func.attr in E.MUTATING and n.func.attr not in getattr(self.w, 'nonmutating', ()):
